@@ -254,6 +254,7 @@ class SystemClock(Clock, metaclass=MetaSystemClock):
     def clear(cls):
         '''Remove all pending tasks from the scheduler queue.'''
         if cls.mode == _libsc3.main.NRT_MODE:
+            _libsc3.main._clock_scheduler.clear(cls)
             return
         with cls._sched_cond:
             while not cls._task_queue.empty():
@@ -375,6 +376,9 @@ class Scheduler():
         self.queue.add(time, item)
 
     def clear(self):
+        # Tasks that expired in the current tick and were not awakened
+        # yet are pending too.
+        self._expired.clear()
         while not self.queue.empty():
             self.queue.pop()
 
@@ -489,7 +493,7 @@ class AppClock(Clock, metaclass=MetaAppClock):
     def clear(cls):
         '''Remove all pending tasks from the scheduler queue.'''
         if cls.mode == _libsc3.main.NRT_MODE:
-            return
+            _libsc3.main._clock_scheduler.clear(cls)
         else:
             with cls._sched_lock:
                 cls._scheduler.clear()
@@ -564,6 +568,15 @@ class ClockScheduler():
     def reset(self):
         self.queue.clear()
         self._pending.clear()
+
+    def clear(self, clock):
+        # Remove the pending tasks of one clock (the queue is shared).
+        for _, clock_task in list(self.queue):
+            if clock_task.clock is clock:
+                self.queue.remove(clock_task)
+                key = (clock_task.clock, clock_task.task)
+                if self._pending.get(key) is clock_task:
+                    del self._pending[key]
 
     def update(self, clock):
         # Pending tasks of a TempoClock are scheduled in beats, their
@@ -1159,6 +1172,7 @@ class TempoClock(Clock, metaclass=MetaTempoClock):
     def clear(self):
         '''Remove all pending tasks from the scheduler queue.'''
         if self.mode == _libsc3.main.NRT_MODE:
+            _libsc3.main._clock_scheduler.clear(self)
             return
         if self.running():  # and self._run_sched:  # NOTE: Was needed?
             with self._sched_cond:
